@@ -85,6 +85,10 @@ def hostile_pair(rng):
 
 
 def gen_case(rng, tier, idx):
+    if rng.random() < 0.04:
+        n = rng.randint(30, 80)
+        return {"shared_args": True, "fn": rng.choice(["highest", "lowest", "rising", "mean_rising", "value_range", "highestbar"]),
+                "lengths": rng.sample([2, 3, 5, 7, 9], 2), "rows": streams.make_rows(rng, n, "walk", 60)}
     if rng.random() < 0.75:
         kind, cfgs = hostile_pair(rng)
         if rng.random() < 0.3:
@@ -197,7 +201,54 @@ def run_shared_list(case):
             "sample": {"cfgs": cfgs, "names": names, "pair_kind": case["pair_kind"], "mode": "shared-list", "ops": case["ops"], "n_rows": len(rows)}}
 
 
+def run_shared_args(case):
+    """Two Amorph members that receive their common analysis arguments through ONE shared `args` dict object (object and dict form):
+    each must keep its own arguments, and the caller's dict must stay as it was."""
+    from hexital.analysis import MOVEMENT_MAP
+    from hexital.indicators import Amorph
+    rows = case["rows"]
+    fname, la, lb = case["fn"], case["lengths"][0], case["lengths"][1]
+    f = MOVEMENT_MAP[fname]
+    stats = {"pair_kinds": ["amorph-shared-args"], "modes": {"shared-args": 1}}
+    viol = []
+    try:
+        def alone(ln):
+            h = Hexital("h", rows_to_candles(rows), [Amorph(analysis=f, args={"indicator": "close"}, length=ln)])
+            h.calculate()
+            return h.reading_as_list(f"{fname}_{ln}")
+        want = {la: alone(la), lb: alone(lb)}
+        for form in ("object", "dict"):
+            for order in ((la, lb), (lb, la)):
+                shared = {"indicator": "close"}
+                if form == "object":
+                    members = [Amorph(analysis=f, args=shared, length=ln) for ln in order]
+                else:
+                    members = [{"analysis": fname, "args": shared, "length": ln} for ln in order]
+                h = Hexital("h", rows_to_candles(rows), members)
+                h.calculate()
+                stats["columns_compared"] = stats.get("columns_compared", 0) + 2
+                for ln in order:
+                    got = h.reading_as_list(f"{fname}_{ln}")
+                    if not same(got, want[ln]):
+                        i = next((i for i in range(min(len(got), len(want[ln]))) if not same(got[i], want[ln][i])), -1)
+                        viol.append({"monitor": "presence-twin", "sig": "C13|presence|Amorph<-Amorph|shared-args",
+                                     "detail": f"{fname}_{ln} ({form} form, order {order}) differs from {fname}_{ln} alone at candle {i}: {short(got[i] if i >= 0 else got[:2], 100)} vs {short(want[ln][i] if i >= 0 else want[ln][:2], 100)}"})
+                        break
+                if shared != {"indicator": "close"} and not viol:
+                    viol.append({"monitor": "input-guard", "sig": "C13|caller-args-dict-altered|Amorph", "detail": f"the shared args dict became {shared}"})
+                if viol:
+                    break
+            if viol:
+                break
+    except Exception as e:
+        import traceback
+        viol.append({"monitor": "exception", "sig": f"C13|raises|amorph-shared-args|{type(e).__name__}", "detail": (repr(e) + traceback.format_exc()[-300:])[:600]})
+    return {"violations": viol, "nontrivial": True, "stats": stats, "sample": {"mode": "shared-args", "fn": fname, "lengths": case["lengths"], "n_rows": len(rows)}}
+
+
 def run_case(case):
+    if case.get("shared_args"):
+        return run_shared_args(case)
     if case.get("shared_list"):
         return run_shared_list(case)
     cfgs, rows, tf, cut1 = case["cfgs"], case["rows"], case["tf"], case["cut1"]
@@ -223,9 +274,21 @@ def run_case(case):
             feed(alone, rows, 5, cut1, case["chunk"])
             base1 = col(alone, tname)
             stats["columns_compared"] = stats.get("columns_compared", 0)
-            for label, order in (("target-first", [tcfg] + [c for c, _ in others]), ("target-last", [c for c, _ in others] + [tcfg])):
-                hx = mk(order)
-                feed(hx, rows, 5, cut1, case["chunk"])
+            for label, order in (("target-first-others-added-later", None), ("target-first", [tcfg] + [c for c, _ in others]),
+                                 ("target-last", [c for c, _ in others] + [tcfg])):
+                if order is None:
+                    # the others are registered later, one add_indicator call each (object or dict form), after some appends
+                    hx = mk([tcfg])
+                    mid = 5 + (cut1 - 5) // 2
+                    feed(hx, rows, 5, mid, case["chunk"])
+                    for k, (c, _) in enumerate(others):
+                        hx.add_indicator(configs.build(c) if k % 2 == 0 else configs.as_dict_form(c))
+                    hx.calculate()
+                    feed(hx, rows, mid, cut1, case["chunk"])
+                    stats["added_later_registrations"] = stats.get("added_later_registrations", 0) + 1
+                else:
+                    hx = mk(order)
+                    feed(hx, rows, 5, cut1, case["chunk"])
                 got = col(hx, tname)
                 stats["columns_compared"] += 1
                 if not same(got, base1):
